@@ -173,6 +173,18 @@ func runC03(r *rep.R) {
 			}
 		}
 	}
+	// long sessions: IV reuse, counters and buffer reuse only show after many packets
+	long := []int{}
+	for i := 0; i < 150; i++ {
+		long = append(long, []int{opGetDeviceID, opGetSDR, opChassisControl, opPowerReading, c03Ops[7], c03Ops[20], opSessionInfo}[i%7])
+	}
+	for si, s := range suites {
+		if si%4 == 0 || thorough(r) {
+			histExploreWith(r, "C03", histCfg{Suite: s, InSession: true, Ops: append(append([]int{}, long...), opClose), Horizon: 2, Alphabet: "retry"}, 0, &idx, judge)
+			histExploreWith(r, "C03", histCfg{Suite: s, InSession: true, Ops: append(append([]int{}, long[:40]...), opClose), Horizon: 2, Alphabet: "retry", MenuOps: []int{0, 13, 27, 39}}, 1, &idx, judge)
+		}
+	}
+	r.Bound("long_session_commands", len(long))
 	r.Bound("suites", len(suites))
 	r.Bound("command_variants", len(c03Ops))
 	r.Bound("deviations", k)
